@@ -97,6 +97,8 @@ def _writes(ctx, rep, cg, reach, mstate):
                 rule = "no-hidden-memory"
                 det = "closure state '{}' written at call time: {}".format(target, norm(node)[:70])
             elif kind in ("param-store", "param-mutate"):
+                if _only_fresh_arguments(cg, fi, target):
+                    continue     # every caller hands in a container it has just created
                 rule = "arguments-unmodified"
                 det = "parameter '{}' is modified: {}".format(target, norm(node)[:70])
             elif kind in ("self-store", "self-mutate"):
@@ -123,6 +125,57 @@ def _writes(ctx, rep, cg, reach, mstate):
             if kind in ("global-rebind", "module-store", "module-mutate"):
                 writers.append("{}::{} -> {}".format(fi.mod.rel, fi.qual, target))
     rep.notes.append("import-time writers of module state: {}".format(sorted(set(writers))[:12]))
+
+
+def _fresh_expr(e, caller):
+    """A container created on the spot (literal, comprehension, constructor call), or a local
+    name bound only to such expressions."""
+    if isinstance(e, (ast.Dict, ast.List, ast.Set, ast.ListComp, ast.DictComp, ast.SetComp)):
+        return True
+    if isinstance(e, ast.Call) and isinstance(e.func, ast.Name) and e.func.id in (
+            "dict", "list", "set", "defaultdict", "OrderedDict", "Counter", "deque"):
+        return True
+    if isinstance(e, ast.Name):
+        params = {a.arg for a in caller.args.args}
+        if e.id in params:
+            return False
+        vals = [a.value for a in ast.walk(caller) if isinstance(a, ast.Assign)
+                and any(isinstance(t, ast.Name) and t.id == e.id for t in a.targets)]
+        return bool(vals) and all(_fresh_expr(v, caller) for v in vals if not isinstance(v, ast.Name))
+    return False
+
+
+def _only_fresh_arguments(cg, fi, pname):
+    """Is parameter *pname* of fi bound, at every call site in the package, to a container the
+    caller created itself?"""
+    f = fi.node
+    names = [a.arg for a in f.args.args]
+    if pname not in names:
+        return False
+    idx = names.index(pname)
+    if getattr(f, "_cls", None) and names and names[0] in ("self", "cls"):
+        idx -= 1
+    sites = 0
+    for other in cg.funcs.values():
+        for c in ast.walk(other.node):
+            if not isinstance(c, ast.Call):
+                continue
+            fn = c.func
+            nm = fn.id if isinstance(fn, ast.Name) else (fn.attr if isinstance(fn, ast.Attribute) else None)
+            if nm != f.name:
+                continue
+            arg = None
+            if 0 <= idx < len(c.args):
+                arg = c.args[idx]
+            for k in c.keywords:
+                if k.arg == pname:
+                    arg = k.value
+            if arg is None:
+                continue      # default value used
+            sites += 1
+            if not _fresh_expr(arg, other.node):
+                return False
+    return sites > 0
 
 
 def _import_time_only(cg, key):
@@ -218,7 +271,7 @@ def _order(ctx, rep):
                         bad = bad or "iterated in hash order: elements are not hashed over integers only"
                 rep.add("order-determinism", c, m.where(v), bad is None,
                         bad or ("elements hashed over integers" if int_hashed else "only iterated under a total sort"))
-    rep.count("sets", n, 2)
+    rep.count("sets", n, 1)
 
 
 def _int_hashed(ctx, cls_name):
